@@ -1,3 +1,4 @@
+import HydroVerif.Generated.C09Consts
 /-
 C09 — model of `hydrodiy.io.csv`: the comment header writer (`_csvhead`), the reader's prefix strip and
 `_header2comment`, and the file-name / archive-member resolution of `write_csv` / `read_csv` (`_check_name`).
@@ -40,7 +41,8 @@ def subSpacesAux : Bool → Str → Str
     else c :: subSpacesAux false s
 def subSpaces (s : Str) : Str := subSpacesAux false s
 
-def KEY_LENGTH_MAX : Nat := 30
+/-- regenerated from csv.py on every run (`Generated/C09Consts.lean`) -/
+def KEY_LENGTH_MAX : Nat := Gen.keyLengthMax
 
 /-! ### writer -/
 
@@ -143,7 +145,7 @@ def writeTarget (name : Str) (compress : Bool) : Str × Option Str :=
 /-- `_check_name`: the file itself if it exists, else the first existing of stem.{gz,zip,csv,csv.gz} -/
 def checkName (exists_ : Str → Bool) (name : Str) : Option Str :=
   if exists_ name then some name else
-  ([extGz, extZip, extCsv, extCsv ++ extGz].map fun e => stem name ++ e).find? exists_
+  (Gen.checkNameExtensions.map fun e => stem name ++ '.' :: e.toList).find? exists_
 
 inductive Opened
   | gz (file : Str) | zipMember (file member : Str) | plain (file : Str)
